@@ -1,5 +1,6 @@
 (* FmtMACHO/ProofsS.v — Sign assembles what it signs; what Verify and VerifyPages guarantee; witnesses of what they do not *)
-From Relic Require Import Base.Prelude Base.Enc Generated.FmtMACHO_gen FmtMACHO.Model FmtMACHO.Proofs FmtMACHO.ProofsCD.
+From Relic Require Import Base.Prelude Base.Enc FmtMACHO.VpLang Generated.FmtMACHO_gen FmtMACHO.Model FmtMACHO.Proofs FmtMACHO.ProofsCD.
+From Relic Require FmtMACHO.ProofsVP.
 From Relic Require C09.Model C09.Proofs.
 
 Lemma sign_layout : sign_layout_ok = true. Proof. reflexivity. Qed.
@@ -183,53 +184,41 @@ Section Sound.
 End Sound.
 
 (* ------------------------------------------------------------------ what VerifyPages guarantees *)
-Lemma ztake_ztake {A} a b (l : list A) : 0 <= a -> 0 <= b -> ztake a (ztake b l) = ztake (Z.min a b) l.
-Proof. intros Ha Hb. unfold ztake. rewrite firstn_firstn. f_equal. lia. Qed.
-Lemma zdrop_ztake {A} a b (l : list A) : 0 <= a <= b -> zdrop a (ztake b l) = ztake (b - a) (zdrop a l).
-Proof. intros H. unfold ztake, zdrop. rewrite skipn_firstn_comm. f_equal. lia. Qed.
-Lemma ztake_nonnil {A} n (l : list A) : 0 < n -> 0 < zlen l -> ztake n l <> [].
-Proof. intros Hn Hl. destruct l; [cbn in Hl; lia|]. unfold ztake. destruct (Z.to_nat n) eqn:E; [lia|]. discriminate. Qed.
-
 Section Pages.
   Variable H : Z -> bytes -> bytes.
-  Lemma vp_loop_sound h ps : 0 < ps -> forall hashes data remaining, vp_loop H hashes h data remaining ps ps = Ok tt ->
-    Forall2 (fun e pg => obytes e = H h pg) hashes (firstn (length hashes) (C09.Model.chunks ps (ztake remaining data))) /\
-    (length hashes <= length (C09.Model.chunks ps (ztake remaining data)))%nat.
+  Lemma section_reader_prefix file n : ztake (mm_s64 n) (section_reader file n) = ztake (mm_s64 n) file.
   Proof.
-    intros Hps. induction hashes as [|e r IH]; intros data remaining; cbn [vp_loop]; [intros _; split; [constructor|cbn; lia]|].
-    unfold vp_exhausted, vp_short_page, vp_remaining_step. destruct (remaining <=? 0) eqn:Er; [discriminate|].
-    set (plen := if remaining <? ps then remaining else ps). assert (Hpl : 0 < plen <= ps /\ plen <= remaining) by (unfold plen; destruct (remaining <? ps) eqn:E; lia).
-    destruct (zlen data <? plen) eqn:Ed; [discriminate|]. destruct (bytes_eqb (H h (ztake plen data)) (obytes e)) eqn:Ee; [|discriminate].
-    apply list_eqb_Z_eq in Ee. intros Hrec.
-    assert (Hne : ztake remaining data <> []) by (apply ztake_nonnil; lia).
-    rewrite (C09.Proofs.chunks_step ps Hps _ Hne). rewrite ztake_ztake by lia.
-    destruct (remaining <? ps) eqn:Es.
-    - (* a short last page: no further hash may follow *)
-      assert (Hr : r = []).
-      { destruct r as [|e2 r2]; [reflexivity|]. cbn [vp_loop] in Hrec. unfold vp_exhausted in Hrec. replace (remaining - plen <=? 0) with true in Hrec by (unfold plen; lia). discriminate. }
-      subst r. cbn [length firstn]. replace (Z.min ps remaining) with plen by (unfold plen; lia). split; [constructor; [now symmetry|constructor]|lia].
-    - rewrite zdrop_ztake by lia. replace plen with ps in * by (unfold plen; reflexivity). replace (Z.min ps remaining) with ps by lia.
-      destruct (IH _ _ Hrec) as [Hf Hl]. cbn [length firstn]. split; [constructor; [now symmetry|exact Hf]|lia].
+    unfold section_reader. destruct (n <? 0) eqn:E; [reflexivity|]. rewrite ztk_eq.
+    destruct (Z.le_gt_cases (mm_s64 n) 0) as [Hle|Hgt]; [rewrite !ztake_neg by lia; reflexivity|].
+    (* mm_s64 n <= n for n >= 0 *)
+    assert (Hm : mm_s64 n <= n).
+    { unfold mm_s64. pose proof (Z.mod_le (n + 9223372036854775808) 18446744073709551616 ltac:(lia) ltac:(lia)). lia. }
+    rewrite FmtMACHO.ProofsVP.ztake_ztake by lia. f_equal. lia.
   Qed.
   (* C02: when VerifyPages accepts a paged directory, every code slot is the digest of the corresponding page of the first CodeSize() bytes of
-     the file (pages as in unit C09: 2^pageSize bytes, the last one short); slots beyond the pages make it fail, pages beyond the slots are NOT
-     looked at (the number of slots is signed with the directory) *)
+     the file (pages as in unit C09: 2^pageSize bytes, the last one short; CodeSize() as the int64 it is); slots beyond the pages make it fail,
+     pages beyond the slots are NOT looked at (FmtMACHO.ProofsVP.few_slots_refuted) *)
   Theorem verify_pages_sound s file d : verify_pages H s file = Ok tt -> best_dir (sg_dirs s) None = Some d ->
-    vp_single_page (h_pagesize (d_hdr d)) = false -> 0 <= h_pagesize (d_hdr d) ->
+    h_pagesize (d_hdr d) <> 0 -> 0 <= h_pagesize (d_hdr d) ->
     let ps := 2 ^ h_pagesize (d_hdr d) in
     h_pagesize (d_hdr d) <= 20 /\
-    Forall2 (fun e pg => obytes e = H (d_hash d) pg) (d_codes d) (firstn (length (d_codes d)) (C09.Model.chunks ps (ztake (code_size s) file))).
+    Forall2 (fun e pg => obytes e = H (d_hash d) pg) (d_codes d) (firstn (length (d_codes d)) (C09.Model.chunks ps (ztake (mm_s64 (code_size s)) file))).
   Proof.
-    unfold verify_pages. intros Hv Hb Hsp H0. rewrite Hb, Hsp in Hv. unfold vp_page_too_large in Hv.
-    destruct (h_pagesize (d_hdr d) >? cs_max_page_log2) eqn:E; [discriminate|]. change cs_max_page_log2 with 20 in E.
-    destruct (go_page_size_small H (h_pagesize (d_hdr d)) ltac:(lia)) as [Hg Hr]. rewrite Hg in Hv.
-    destruct (alloc _ _) as [[]| |]; cbn [bind] in Hv; try discriminate. rewrite ztk_eq in Hv.
-    split; [lia|]. cbv zeta.
-    destruct (code_size s <=? 0) eqn:Ec.
-    - (* nothing to cover: only an empty slot list passes *)
-      destruct (d_codes d) as [|e r]; [constructor|]. cbn [vp_loop] in Hv. unfold vp_exhausted in Hv. rewrite Ec in Hv. discriminate.
-    - pose proof (vp_loop_sound (d_hash d) (2 ^ h_pagesize (d_hdr d)) ltac:(lia) _ _ _ Hv) as [Hf _].
-      rewrite ztake_ztake in Hf by lia. rewrite Z.min_id in Hf. exact Hf.
+    unfold verify_pages, verify_pages_rd. intros Hv Hb Hsp H0. cbv zeta.
+    assert (Hin : vp_input s (alloc_limit (zlen file)) = mkVin false (h_pagesize (d_hdr d)) (map obytes (d_codes d)) (d_hash d) (code_size s) (alloc_limit (zlen file)))
+      by (unfold vp_input; rewrite Hb; reflexivity).
+    rewrite Hin in Hv. pose proof (zlen_nonneg file) as Hf.
+    assert (Hl20 : h_pagesize (d_hdr d) <= 20).
+    { rewrite FmtMACHO.ProofsVP.vp_exec_eq in Hv by (cbn; unfold alloc_limit; lia). unfold FmtMACHO.ProofsVP.vp_fun in Hv. cbn [i_none i_log2] in Hv. cbv zeta in Hv.
+      destruct (_ <? 0); [discriminate|]. replace (h_pagesize (d_hdr d) =? 0) with false in Hv by lia. destruct (h_pagesize (d_hdr d) >? 20) eqn:E; [discriminate|lia]. }
+    split; [exact Hl20|].
+    match type of Hv with vp_exec _ ?c _ ?rd = _ =>
+      assert (Hp := FmtMACHO.ProofsVP.vp_accepts_prefix H c rd ltac:(cbn [i_log2]; lia) ltac:(cbn [i_alloc_limit]; unfold alloc_limit; lia) Hv) end.
+    cbn [i_hashes i_hfun i_log2 i_code_size] in Hp. rewrite section_reader_prefix in Hp. rewrite map_length in Hp.
+    set (pgs := firstn (length (d_codes d)) _) in *. clearbody pgs. clear -Hp. revert pgs Hp.
+    induction (d_codes d) as [|e r IH]; intros pgs Hp; destruct pgs as [|pg pgs]; cbn [map] in Hp; try discriminate; constructor.
+    - injection Hp as Hp _. exact Hp.
+    - apply IH. injection Hp as _ Hp. exact Hp.
   Qed.
 End Pages.
 
